@@ -316,7 +316,7 @@ class Gen(object):
     if p.get('plug_faults') and t.chance(p['plug_faults'], 'plugfault'):
       i = t.draw(3, 'which_plug')
       f = t.weighted([(3, ('ctor', 'raise')), (3, ('teardown', 'raise')), (2, ('teardown', 'hang')),
-                      (2, ('teardown', 'slow')), (1, ('teardown', 'hang_u'))], 'pf')
+                      (2, ('teardown', 'slow')), (1, ('teardown', 'hang_u')), (2, ('teardown', 'raise_base'))], 'pf')
       plug_cfg[i][f[0]] = f[1]
       if f[1] in ('hang', 'hang_u') or t.chance(300, 'ptt'):
         settings['plug_teardown_timeout_s'] = t.pick([1.0, 0.3], 'ptt')
